@@ -55,6 +55,7 @@ def case_strategy(unit):
         "abc": st.tuples(S.fl(2.5, 12), S.fl(2.5, 12), S.fl(2.5, 12)).map(list),
         "ang": st.tuples(S.fl(40, 115), S.fl(60, 120), S.fl(-1, 1)).map(list),
         "tri_alpha": S.fl(55, 125), "orth": st.integers(0, 3).map(lambda i: i == 0),
+        "equal_axes": st.integers(0, 5).map(lambda i: i == 0), "special_angle": st.sampled_from([None, None, None, 60.0, 109.47122063449069, 90.0, 120.0]),
         "gap": S.fl(0, 1), "smin_gap": st.one_of(st.none(), S.fl(0, 1)),
         "byname": st.booleans(), "upper": st.booleans(), "blank": st.booleans(), "name_only": st.booleans(),
         "cell_as": st.sampled_from(["list", "list", "array"]),   # (a tuple cell makes the debug logging of six Laue classes raise TypeError: observed, outside the documented list/array input, not claimed)
@@ -71,8 +72,17 @@ def build(case, max_points=1500):
     no, ch = GR.SETTINGS[case["setting"]]
     g = GR.group(no, ch)
     a, b, c = case["abc"]
+    if case.get("equal_axes"):          # pseudo-symmetric metric: edges exactly equal although the system does not require it
+        b = c = a
     ang1 = case["tri_alpha"] if g.crystal_system == "triclinic" and ch != "rhombohedral" else case["ang"][0]
-    cell = GR.conforming_cell(g, a, b, c, ang1, case["ang"][1], case["ang"][2], orth=case["orth"])
+    ang2 = case["ang"][1]
+    sa = case.get("special_angle")
+    if sa is not None:
+        if ch == "rhombohedral" and sa < 119.0:
+            ang1 = sa                      # alpha = 60 (fcc primitive), 109.47 (bcc primitive), 90
+        elif g.crystal_system == "monoclinic" and sa in (60.0, 120.0, 90.0):
+            ang2 = sa
+    cell = GR.conforming_cell(g, a, b, c, ang1, ang2, case["ang"][2], orth=case["orth"])
     cell = [float(x) + 0.0 for x in cell]
     G, Gs, V = O.metric(cell)
     scale = 1.1 if (g.Laue == "-3" and ch == "rhombohedral") else 1.0
